@@ -22,10 +22,10 @@ CHUNK = {"quick": 10, "thorough": 50}
 OPS = ["view:settings", "view:settings_by_index", "view:raw_settings", "view:raw_settings_by_index", "map:name:pretty",
        "map:const:raw", "map:enum:noparse", "props", "repr", "c2http:rsa", "c2http:aes_rand", "c2http:aes_hmac",
        "c2http:aes_noverify", "client_dry", "profile_text", "profile_dict", "transform_get", "transform_post",
-       "transform_server", "recover_roundtrip", "iter_recover", "mutate_attempt"]
+       "transform_server", "transform_get_noreq", "transform_post_noreq", "recover_roundtrip", "iter_recover", "mutate_attempt"]
 PROBES = ["op_" + o.replace(":", "_") for o in OPS] + ["real_sample_config", "generated_config", "history_len>=10",
                                                         "consumer_then_observe", "pair_sweep"]
-RULE = ("systematic population: every ordered pair of the 22 operation kinds (view access, settings_map variants, derived "
+RULE = ("systematic population: every ordered pair of the 24 operation kinds (view access, settings_map variants, derived "
         "properties, repr, C2Http with each key variant, HttpBeaconClient dry run, profile generation text/dict, "
         "transform/recover/iter_recover_http on decoders built so far, mutation attempts) followed by a final observation, "
         "on 3 generated configurations (quick) / 8 (thorough), triples in thorough on one configuration; seeded population: "
@@ -102,6 +102,8 @@ def snapshot(bc) -> str:
 
 
 class State:
+    cfgplan = None
+
     def __init__(self, bc, priv, is_http):
         self.bc = bc
         self.priv = priv
@@ -195,6 +197,24 @@ def run_op(op: str, st: State, seams) -> str:
     if op == "transform_post":
         r = c.transform_submit.transform(C2Data(id=b"4242", output=b"O" * 52), request=init)
         return repr((r.uri, sorted(r.params.items()), sorted(r.headers.items()), r.body))
+    if op in ("transform_get_noreq", "transform_post_noreq"):
+        if op == "transform_get_noreq":
+            r = c.transform_get.transform(C2Data(metadata=b"M" * 128))
+            prog = "get"
+        else:
+            r = c.transform_submit.transform(C2Data(id=b"4242", output=b"O" * 52))
+            prog = "post"
+        stale = ""
+        if getattr(st, "cfgplan", None):
+            # a message built from scratch carries nothing but what its program prescribes - whatever was transformed before
+            steps = st.cfgplan[prog]
+            allowed = {rc.arg(x).partition(b": ")[0] for x in steps if x[0] in ("_header", "_hostheader")} | \
+                      {rc.arg(x) for x in steps if x[0] == "header"} | \
+                      {rc.arg(x).partition(b"=")[0] for x in steps if x[0] == "_parameter"} | {rc.arg(x) for x in steps if x[0] == "parameter"}
+            extra = sorted(k for k in list(r.headers) + list(r.params) if k not in allowed)
+            if extra:
+                stale = f" STALE-PARTS:{extra!r}"
+        return repr((r.uri, sorted(r.params.items()), sorted(r.headers.items()), r.body)) + stale
     if op == "transform_server":
         r = c.transform_response.transform(C2Data(output=b"T" * 48))
         return repr(r.body)
@@ -240,6 +260,7 @@ def execute(plan: dict) -> Result:
         is_http = twin.protocol in ("http", "https") and not twin.is_trial and bool(twin.public_key)
         for hist in histories:
             shared = State(BeaconConfig(block), priv, is_http)
+            State.cfgplan = plan.get("config")
             built_consumer = False
             if len(hist) >= 10:
                 res.probes["history_len>=10"] += 1
@@ -264,6 +285,11 @@ def execute(plan: dict) -> Result:
                     built_consumer = True
                 if op == "mutate_attempt" and "ACCEPTED" in got:
                     res.violate(("C14", "mapping_accepts_mutation"), f"a settings mapping accepted a mutation: {got}")
+                    break
+                if "STALE-PARTS:" in got:
+                    res.violate(("C14", "result_depends_on_history", op.split(":")[0], "stale_parts"),
+                                f"after {hist[:i]} (and whatever ran before in this process) {op} produced a message with parts its "
+                                f"program does not prescribe: {got[got.index('STALE-PARTS:'):][:300]}", _narrow(plan, hist[:i + 1]))
                     break
                 if got != want:
                     res.violate(("C14", "result_depends_on_history", op.split(":")[0], _first_consumer(hist[:i])),
